@@ -13,6 +13,7 @@ import (
 	"strings"
 	"sync"
 	"sync/atomic"
+	"time"
 
 	"verif/vlib"
 )
@@ -195,7 +196,10 @@ func replay(path string) {
 	os.Exit(0)
 }
 
+const quickGraphBudget = 45 * time.Second
+
 func main() {
+	started := time.Now()
 	prop := flag.String("property", "C13", "")
 	rp := flag.String("replay", "", "")
 	flag.Parse()
@@ -294,9 +298,9 @@ func main() {
 		fams = append(fams, graphFamily{N: 4, KindSets: allKindSets(4), UnionStyles: []int{0}})
 		graphRule += "; n=4: all 65,536 graphs x all 81 kind assignments with struct branches (message-branch style only for n<=3)"
 	} else {
-		// representative kind assignments for n=4 in the quick tier: all structs, and exactly one message or union at each position
+		// representative kind assignments for n=4 in the quick tier: all structs, and exactly one message or union first / last
 		sets := [][]int{{gStruct, gStruct, gStruct, gStruct}}
-		for pos := 0; pos < 4; pos++ {
+		for _, pos := range []int{0, 3} {
 			for _, k := range []int{gMessage, gUnion} {
 				ks := []int{gStruct, gStruct, gStruct, gStruct}
 				ks[pos] = k
@@ -304,7 +308,7 @@ func main() {
 			}
 		}
 		fams = append(fams, graphFamily{N: 4, KindSets: sets, UnionStyles: []int{0}})
-		graphRule += "; n=4 (quick tier): all 65,536 graphs x 9 representative kind assignments (all structs; exactly one message or one union at each of the 4 positions)"
+		graphRule += "; n=4 (quick tier): all 65,536 graphs x 5 representative kind assignments (all structs; exactly one message or one union, as the first or as the last definition)"
 	}
 	var graphs, graphReject, graphAccept atomic.Int64
 	graphKinds := vlib.NewCounter()
@@ -315,6 +319,10 @@ func main() {
 		nchunks := (total + chunk - 1) / chunk
 		vlib.ParallelFor(nchunks, func(ci int) {
 			if run.TimeUp("graph enumeration") {
+				return
+			}
+			if !run.Thorough() && f.N == 4 && time.Since(started) > quickGraphBudget {
+				run.Cap(fmt.Sprintf("quick tier: n=4 graph enumeration stopped after %v of wall time (loaded machine); n<=3 and all injections are complete", quickGraphBudget))
 				return
 			}
 			for i := ci * chunk; i < (ci+1)*chunk && i < total; i++ {
